@@ -270,9 +270,11 @@ where
                 let text = editor.text_mut();
 
                 let tokens = Tokens::new(text);
-                self.process_input::<C, _>(tokens, processor)?;
+                let result = self.process_input::<C, _>(tokens, processor);
 
+                // buffer contains tokens now, so it is cleared even if processing failed
                 editor.clear();
+                result?;
 
                 self.writer.flush_str(self.prompt)?;
             }
